@@ -34,22 +34,21 @@ pub fn run(
     statistics: CachePaddedArc<IpVersionStatistics<SocketWorkerStatistics>>,
     statistics_sender: Sender<StatisticsMessage>,
     validator: ConnectionValidator,
-    mut priv_droppers: Vec<PrivilegeDropper>,
+    priv_dropper: PrivilegeDropper,
 ) -> anyhow::Result<()> {
     let mut opt_socket_ipv4 = if config.network.use_ipv4 {
-        let priv_dropper = priv_droppers.pop().expect("not enough privilege droppers");
-
-        Some(Socket::<self::socket::Ipv4>::create(&config, priv_dropper)?)
+        Some(Socket::<self::socket::Ipv4>::create(&config)?)
     } else {
         None
     };
     let mut opt_socket_ipv6 = if config.network.use_ipv6 {
-        let priv_dropper = priv_droppers.pop().expect("not enough privilege droppers");
-
-        Some(Socket::<self::socket::Ipv6>::create(&config, priv_dropper)?)
+        Some(Socket::<self::socket::Ipv6>::create(&config)?)
     } else {
         None
     };
+
+    // Wait for the other workers only once all sockets of this worker are bound
+    priv_dropper.after_socket_creation()?;
 
     let access_list_cache = create_access_list_cache(&shared_state.access_list);
     let peer_valid_until = ValidUntil::new(
